@@ -752,7 +752,7 @@ def battery(repo, side, refs=("a", "b"), light=False):
         for si in range(1, n + 1):
             sset = frozenset([side.cid(si)])
             for X in excl_sets(n):
-                if light and X not in ((), (1,)):
+                if light and X not in ((), (1,), (si,)):
                     continue
                 xs = [side.cid(i) for i in X]
                 k3 = f"{wi}|{key(X)}|{si}"
@@ -760,7 +760,7 @@ def battery(repo, side, refs=("a", "b"), light=False):
                     A["cut"][k3] = commits(_collect_ancestors(st, [wc], frozenset(xs), sset)[0])
                 except Exception as e:
                     A["cut"][k3] = _exc(e)
-                if light and X:
+                if light and X and X != (si,):        # the client has nothing, or has the boundary commit
                     continue
                 try:
                     A["miss_s"][k3] = objs(s for s, _ in MissingObjectFinder(st, haves=xs, wants=[wc], shallow=set(sset)))
@@ -815,7 +815,7 @@ def battery(repo, side, refs=("a", "b"), light=False):
     return A
 
 
-def warm(repo, side):
+def warm(repo, side, refs=True):
     """Touch every cache a long-lived process would hold: pack list, midx, commit-graph, packed-refs."""
     st = repo.object_store
     for i in range(1, side.n + 1):
@@ -826,7 +826,8 @@ def warm(repo, side):
         except Exception:
             pass
     try:
-        repo.refs.as_dict()
+        if refs:
+            repo.refs.as_dict()
         st.get_reachability_provider()
     except Exception:
         pass
@@ -868,6 +869,11 @@ def lowlevel(repo, side, model, root):
                 continue
             if bm is None:
                 continue
+            if bm.entries and not any(bm.has_commit(side.cid(i)) for i in side.ids):
+                out.append(("dulwich/bitmap.py:read_bitmap_file", "BitmapDead",
+                            "a bitmap read from disk is never consulted: its entries are keyed by binary object id, "
+                            "find_commit_bitmaps/has_commit look them up by hex id (only bitmaps generated by the same "
+                            "open object store are used)"))
             # a file sitting next to a pack it was not built for must not be accepted
             if b["at"] != b["for"]:
                 out.append(("dulwich/pack.py:Pack.bitmap", "StaleRejected", "bitmap built for another pack accepted"))
